@@ -2,6 +2,7 @@
 #define _GNU_SOURCE
 #include "vh.h"
 #include "src/safe.c"
+#include "src/filter.c"
 
 int vh_ops_tool(int argc, char **argv)
 {
@@ -20,6 +21,17 @@ int vh_ops_tool(int argc, char **argv)
 		fclose(f);
 		vh_out_hex((uint8_t *) buf, len);
 		free(buf); free(s); free(b.data);
+		return 1;
+	}
+	// globm <pattern hex> <string hex>: match_glob(pattern, string) of src/filter.c
+	if (!strcmp(argv[0], "globm") && argc == 3) {
+		VhBytes p, t;
+		char *ps, *ts;
+		if (!vh_parse_hex(argv[1], &p) || !vh_parse_hex(argv[2], &t)) return 0;
+		ps = malloc(p.len + 1); memcpy(ps, p.data, p.len); ps[p.len] = 0;
+		ts = malloc(t.len + 1); memcpy(ts, t.data, t.len); ts[t.len] = 0;
+		vh_out("%d", match_glob(ps, ts) ? 1 : 0);
+		free(ps); free(ts); free(p.data); free(t.data);
 		return 1;
 	}
 	return 0;
